@@ -129,8 +129,8 @@ func (n *netWorld) ValidateContent(key, content []byte) error {
 type logStore struct{ n *netWorld }
 
 func (s logStore) Get(k, id []byte) ([]byte, error) { return s.n.inner.Get(k, id) }
-func (s logStore) Radius() *uint256.Int            { return s.n.inner.Radius() }
-func (s logStore) Close() error                    { return s.n.inner.Close() }
+func (s logStore) Radius() *uint256.Int             { return s.n.inner.Radius() }
+func (s logStore) Close() error                     { return s.n.inner.Close() }
 func (s logStore) Put(k, id, v []byte) error {
 	err := guardErr(func() error { return s.n.inner.Put(k, id, v) })
 	it := s.n.find(k, v, true)
